@@ -40,6 +40,21 @@ ImplStatus == AtExit => (Ok <=> wev.obs.status = "ok") /\ wev.obs.status # "cras
 ImplOutputs == AtExit => wev.obs.out = out
 ImplFaithful == AtExit => wev.obs.bad = {}
 ImplSolver == wev.obs.solver = Solver
+(* Vacuity: every (mesh consumer, mesh modifier) cell is exercised by a successful run    *)
+(* whose files were compared.  "range" = FMIN/FMAX for the consumers that take a frequency *)
+(* window, CUTOFF_FREQUENCY for the thermal properties; it does not apply to the mesh file. *)
+Consumers == {"mesh", "dos", "pdos", "tprop", "ptprop", "tdisp", "tdm", "tdm_cif", "moment"}
+CellMods == {"gc", "shift", "nomeshsym", "even", "odd", "range"}
+Applicable(c, x) == ~(c = "mesh" /\ x = "range")
+MainEvents == {e \in WEvents : e.cmd \in MainCmds}
+MissingCells ==
+  {cx \in Consumers \X CellMods :
+     /\ Applicable(cx[1], cx[2])
+     /\ ~\E e \in MainEvents : /\ e.obs.checked # {}
+                               /\ ConsumerS(e.s) = cx[1] /\ cx[2] \in ModsS(e.s)}
+(* evaluated once (in the initial state of one event) *)
+CellsExercised ==
+  (pc = "start" /\ wev = (CHOOSE e \in WEvents : TRUE) /\ (\E e \in MainEvents : e.full)) => MissingCells = {}
 (* log files, structure files and plots are not data outputs *)
 DataFiles == out \ {"SUPERCELLS", "MODULATED"}
 ImplCompared == (AtExit /\ Ok) => DataFiles \subseteq wev.obs.checked
